@@ -15,7 +15,8 @@ META = {
             "sound / behaviour-preserving on EVERY execution of a small-step semantics (range analysis as a whole, "
             "assert/overflow elimination, affine folding, liveness, dominators/SSA/DFG, remove-unused-variables, copy "
             "elimination, DFT reordering, SCCP, CFG passes, load elimination / DSE / CSE, memmerging, copy forwarding, instruction "
-            "selection, inliner / Mem2Var, FMP lowering (LIFO reclaim discipline) and further passes as listed in DESIGN IV.4). (3) An executable Venom semantics "
+            "selection, inliner / Mem2Var, FMP lowering (LIFO reclaim discipline), memory liveness + concretisation (allocas that share an address; "
+            "the call family only may-write its output buffer) and further passes as listed in DESIGN IV.4). (3) An executable Venom semantics "
             "(Venom.v) tied to the real back end on pyrevm, used for per-pass differential search. Passes without a "
             "validator are covered by (3) only.",
     "level_note": "Trusted: Coq kernel + vm_compute; py2coq (validated per run by CPython-vs-model differential); Word256.v "
@@ -589,6 +590,8 @@ def prebuild(ctx):
     from vlib import c14mm_part, c14_sccp, c14c_part, c14_isel, c14m_part
     c14_isel.prebuild(ctx)
     c14m_part.prebuild(ctx)
+    from vlib import c14_memlive
+    c14_memlive.prebuild(ctx)        # after c14m_part: C14/MemLiveTie.v imports C14M/MemSem.v
     c14mm_part.prebuild(ctx)
     c14_sccp.prebuild(ctx)
     c14c_part.prebuild(ctx)
@@ -1076,7 +1079,7 @@ def part_fixpoint(ctx):
 def run(ctx):
     import time
     from vlib import c14_dret
-    from vlib import (c14_fixvenom, c14_isel, c14_pass, c14_sccp, c14a_part, c14c_part, c14d_part, c14g_part, c14l_part,
+    from vlib import (c14_fixvenom, c14_isel, c14_memlive, c14_pass, c14_sccp, c14a_part, c14c_part, c14d_part, c14g_part, c14l_part,
                       c14i_part, c14m_part, c14mm_part, c14s_part)
     total = 0
     t = time.time()
@@ -1094,7 +1097,8 @@ def run(ctx):
         [("algebraic/sccp", c14a_part.part_algebraic), ("sccp whole-function validator", c14_sccp.part_sccp)],
         [("dominators/ssa/dfg/makessa", c14d_part.part_dom)],
         [("cfg passes", c14g_part.part_cfg_passes), ("assembly control flow", c14g_part.part_asm_cfg)],
-        [("small rewrite passes", c14l_part.part_small_passes), ("memmerging", c14mm_part.part_memmerge)],
+        [("small rewrite passes", c14l_part.part_small_passes), ("memmerging", c14mm_part.part_memmerge),
+         ("memory liveness / concretisation validator", c14_memlive.part_memlive)],
         [("copy forwarding / elision passes", c14c_part.part_copy_passes), ("load elimination / DSE / CSE", c14m_part.part_mem_passes)],
         [("stack model", c14s_part.part_stack), ("inliner / mem2var validators", c14i_part.part_inline_mem2var)],
         [("passes", c14_pass.part_passes), ("rangefix/venom link", c14_fixvenom.part_fixvenom),
